@@ -72,6 +72,10 @@ def run(ctx, res):
         synth = mir.contains(r, is_tok) or any(e[0] in ("set", "store") and mir.contains(e[2], is_tok) for e in p.events) or \
             any(e[0] == "call" and any(mir.contains(a, is_tok) for a in e[2]) for e in p.events)
         toks = any(is_call(t, "Vec::<T, A>::is_empty") and v == 0 for t, v in p.cond)
+        if synth and toks:
+            res.violation(rid5, "stop-next-to-tokens", "GLR synthesises a STOP lookahead although the lexer returned tokens: with partial "
+                          "parsing it follows every parsable prefix where LR follows the tokens (one tree in LR, several in GLR)", fg.loc())
+            continue
         if synth:
             glr_stop.add((pp[0] if pp else None, se[0] if se else None))
         elif not toks:
@@ -120,6 +124,32 @@ def run(ctx, res):
         if "layout-parser" in v["key"]:
             res.violation(rid7, v["key"].split("/", 1)[1], v["what"], v.get("where"))
     # S8 replay protocol
+    # S11 the layout bracket of the GLR token fetch (sibling of C14-R1 for LR): the head is put into the layout state for the
+    # layout parser and back into its own state on EVERY way out, the retry included
+    rid11 = res.rule("C07-S11", "GLR find_lookaheads: the layout parser runs between set_state(default_layout) and set_state(saved "
+                     "state) on every path (as LR next_token does): a head left in the layout state rejects what LR accepts", floor=1)
+    fl = F.one(rt.GLR + "find_lookaheads$")
+    nbr = 0
+    badp = None
+    for p in Sim(fl, F, max_paths=100000).run():
+        i_lp = idx(p, "parse_with_context")
+        if i_lp is None:
+            continue
+        nbr += 1
+        ss = [(i, e) for i, e in enumerate(p.events) if e[0] == "call" and mir.call_matches(e[1], "Context::set_state")]
+        before = [e for i, e in ss if i < i_lp]
+        after = [e for i, e in ss if i > i_lp]
+        okb = before and mir.has_call(before[-1][2][1], "State::default_layout")
+        oka = after and is_call(after[0][2][1], "Context::state")
+        if not (okb and oka):
+            badp = p.end
+    if not nbr:
+        res.anchor_lost(rid11, "call of the layout parser in find_lookaheads not found", fl.loc())
+    elif badp:
+        res.violation(rid11, "glr-layout-state-bracket", "a path of find_lookaheads (ending in %s) runs the layout parser without putting "
+                      "the head back into its own state afterwards" % ("the retry" if badp == "backedge" else badp), fl.loc())
+    else:
+        res.ok(rid11, "glr-layout-state-bracket", fl.loc(), "%d paths through the layout parser" % nbr)
     rid8 = res.rule("C07-S8", "Tree::build replays a forest tree through an LR builder in post-order with the LR loop's call protocol "
                     "(shift_action(ctx, token); children left to right, then reduce_action(ctx, prod, children.len()))", floor=2)
     h = F.one(r"^rustemo::glr::gss::Tree::<[^>]*>::build_inner$")
